@@ -264,7 +264,10 @@ class BodyMixin:
         markup = None
         mp = MULTIPART_BOUNDARY_PATT.match(self.environ.get('CONTENT_TYPE', ''))
         if mp is not None:
-            markup = MultipartMarkup(mp.group(1))
+            boundary = mp.group(1)
+            if len(boundary) > 1 and boundary[0] == boundary[-1] == '"':
+                boundary = boundary[1:-1]  # quoted-string form (rfc2046)
+            markup = MultipartMarkup(boundary)
         try:
             body = _body_read(
                 self.environ['wsgi.input'].read,
